@@ -55,6 +55,71 @@ type c15Clone struct {
 	// receivers, so a pointer to one is an Action too) is cloned through a POINTER to it: (&spec).CloneWith(ctx)
 	// yields what spec.CloneWith(ctx) yields
 	Ptr bool `json:"ptr,omitempty"`
+	// THE CONTEXT'S DATA IS MORE THAN x: at every path that a text of the (expected) clone names — a path field, a
+	// file name that happens to be a path, a rendered `pre-V-post` — the data holds a CONTAINER that has an `x` and an
+	// `other.y` of its own (other values than at the root).  Template-bearing fields are rendered against the
+	// context's data, i.e. its root: the clone holds the same texts as without those containers.
+	Nest bool `json:"nest,omitempty"`
+}
+
+var c15PathSafeRe = regexp.MustCompile(`^[A-Za-z0-9_-]+(\.[A-Za-z0-9_-]+)*$`)
+
+// c15Texts collects every text held by a value (strings, pointers to / slices of them, value-or-reference texts,
+// nested structs / maps of actions).
+func c15Texts(v reflect.Value, depth int, out map[string]bool) {
+	if !v.IsValid() || depth > 12 {
+		return
+	}
+	switch v.Kind() {
+	case reflect.String:
+		out[v.String()] = true
+	case reflect.Ptr, reflect.Interface:
+		if !v.IsNil() {
+			c15Texts(v.Elem(), depth+1, out)
+		}
+	case reflect.Slice, reflect.Array:
+		for i := 0; i < v.Len(); i++ {
+			c15Texts(v.Index(i), depth+1, out)
+		}
+	case reflect.Map:
+		for _, k := range v.MapKeys() {
+			c15Texts(v.MapIndex(k), depth+1, out)
+		}
+	case reflect.Struct:
+		if v.Type() == reflect.TypeOf(regexp.Regexp{}) {
+			return
+		}
+		for i := 0; i < v.NumField(); i++ {
+			if v.Type().Field(i).IsExported() {
+				c15Texts(v.Field(i), depth+1, out)
+			}
+		}
+	}
+}
+
+// c15NestData places a container {x, other.y} of its own at every path-safe text of v (shorter paths first).
+func c15NestData(data dom.ContainerBuilder, v reflect.Value, x string) int {
+	texts := map[string]bool{}
+	c15Texts(v, 0, texts)
+	var paths []string
+	for t := range texts {
+		if c15PathSafeRe.MatchString(t) && t != "x" && t != "other" && !strings.HasPrefix(t, "x.") && !strings.HasPrefix(t, "other.") {
+			paths = append(paths, t)
+		}
+	}
+	sort.Slice(paths, func(i, j int) bool {
+		if len(paths[i]) != len(paths[j]) {
+			return len(paths[i]) < len(paths[j])
+		}
+		return paths[i] < paths[j]
+	})
+	for _, p := range paths {
+		n := dom.Builder().Container()
+		n.AddValue("x", dom.LeafNode("nested:"+x))
+		n.AddValueAt("other.y", dom.LeafNode(2))
+		data.AddValueAt(p, n)
+	}
+	return len(paths)
 }
 
 // c15PtrTo: a pointer to (a copy of) the wrapping value; other actions as they are.
@@ -127,7 +192,7 @@ type c15FE struct {
 
 func init() {
 	register(&Prop{ID: "C15", Run: c15Run,
-		Rule: "operation types are enumerated by reflection from pipeline.OpSpec (recursively through pointed-to types); each is populated by kind (strings, *string, bool, []int, []string, maps, *ValOrRef / *AnyVal / ActionSpec / ChildActions decoded from YAML or built recursively) from a seed, cloned under a real ActionContext and compared field by field (nil/empty identified), bare and wrapped in OpSpec / ActionSpec / ChildActions — the wrapping value cloned directly and through a POINTER to it ((&spec).CloneWith(ctx), an equivalent entry point) —; slices are populated with 0..2 and with 3, 5, 6, 7, 9 elements; template cases put a template over the micro-fragment `{{ .x }}` into clone:\"template\" fields — the plain `pre-{{ .x }}-post` and (VALUE RANGE, per tagged field of every operation type and at random) texts with a `}}` BEFORE the first `{{` (nested JSON in a message, `odd}}key.{{ .x }}`), the action at the very beginning / end / twice, next to braces, dots, white space, non-ASCII text and line ends — with .x from {V, a.b, 7, empty, blank, `.`, `}}`, non-ASCII …}: the clone holds the text text/template renders (every `{{ .x }}` replaced, the rest literal); template-free texts are drawn from a pool that also holds paths beginning / ending with the separator or holding an empty segment (`.defaults`, `labels.`, `a..b`: an empty-named key is a key), names that differ from their cleaned / trimmed form, leading / trailing white space, letter-case twins, supplementary-plane characters, U+FFFD, syntax look-alikes, digit strings beyond 64 bits, the empty text, `}} {{`; configured-but-empty values (non-nil pointer to \"\" / false / 0 / empty slice, empty non-nil slices and maps) are populated per field, alone and next to all other fields; value-or-reference values are populated in both kinds and in the odd forms too (an immediate value that also has Ref set, a reference that also has Val set, an empty reference); template text also goes into text fields that are NOT tagged (string, *string, []string elements, *[]string elements, *ValOrRef: the clone may hold them verbatim or rendered) and every templated value is cloned twice under different data with a deep snapshot of the original (slice elements included) compared before/after, and the FIRST clone compared with what it was before the second one was made; FAILURE THEN SUCCESS: per text field of every operation type (and at random) the field holds a template that CANNOT be rendered — it parses and fails while it is being executed, after it has produced output (field of a scalar, undefined associated template, sprig's fail, index of a missing key; short and longer than 64 bytes), or it does not parse — while the other template fields hold templates that render, and/or the clone is preceded, in the same context, by the clone of another operation whose template cannot be rendered: the unrenderable text is kept as it is, every other field holds exactly the rendered text, and a plain log operation cloned afterwards holds its rendered message; exec cases run data-only specs (set, patch, template, log, abort, define+call, loop, forEach) as original and clone on equal data (the clone first: the original must still be what it was after the clone ran) and as forEach bodies; vor cases take one value-or-reference — decoded scalar, decoded {ref: …}, composite literal with Ref AND Val, decoded reference with Val set; Ref / Val from {empty, path of a leaf, missing path, `{{ .x }}` with .x possibly empty} (small scope exhaustively, then random) — on its own ((*ValOrRef).CloneWith) and as every *ValOrRef field of every operation type found by reflection, bare / in OpSpec / in ActionSpec: the clone is compared field by field (the unexported kind flag included; reflect.DeepEqual with the original when template-free), resolved on data where the path named by Ref holds something else than Val, and executed (export: which files are written with what content, log lines; forEach over a query: log lines) against the original; feach cases run a forEach over 2-3 items whose body (log, set, template, patch, exec `true` with an argument list, in operations or in a steps child) uses `{{ .<variable> }}` and compare outcome, data and logs with a fresh copy of the body cloned+executed per item, and with a second run of the same forEach value. ROUND 6, SYNTAX LOOK-ALIKES AND SHAPES: trees held by an operation (any-values, set data, call / ext arguments; in clone, exec and nested action cases) also have KEYS that look like syntax of a neighbouring notation — dotted paths (`app.kubernetes.io/name`, `a..b`, `.lead`, `trail.`), index groups (`l[0]`, `m[1].k`), JSON pointers and their escapes (`/p`, `/a/b`, `~0`, `~1`), `k=v`, `*`, `%s`, `$x`, digits only, `-`, the empty key — and rare shapes (an empty collection followed by more content, lists directly in lists three levels deep with unequal lengths): a key is a key, the clone holds the same tree and executing it places the same tree; the value of .x is also text that LOOKS LIKE a template action which would render against the data (`{{ .other.y }}`, `v-{{ .other.y }}.yaml`, a comment action, a raw-string action, `{{ .x }}` itself), `%s`, `${x}`, `*`: the clone holds the text rendered ONCE — rendered text is text (a fixed table runs every operation type's template fields under each such value, bare and wrapped). Non-trivial: at least one field populated. distinct = distinct canonical case JSON.",
+		Rule: "operation types are enumerated by reflection from pipeline.OpSpec (recursively through pointed-to types); each is populated by kind (strings, *string, bool, []int, []string, maps, *ValOrRef / *AnyVal / ActionSpec / ChildActions decoded from YAML or built recursively) from a seed, cloned under a real ActionContext and compared field by field (nil/empty identified), bare and wrapped in OpSpec / ActionSpec / ChildActions — the wrapping value cloned directly and through a POINTER to it ((&spec).CloneWith(ctx), an equivalent entry point) —; slices are populated with 0..2 and with 3, 5, 6, 7, 9 elements; template cases put a template over the micro-fragment `{{ .x }}` into clone:\"template\" fields — the plain `pre-{{ .x }}-post` and (VALUE RANGE, per tagged field of every operation type and at random) texts with a `}}` BEFORE the first `{{` (nested JSON in a message, `odd}}key.{{ .x }}`), the action at the very beginning / end / twice, next to braces, dots, white space, non-ASCII text and line ends — with .x from {V, a.b, 7, empty, blank, `.`, `}}`, non-ASCII …}: the clone holds the text text/template renders (every `{{ .x }}` replaced, the rest literal); template-free texts are drawn from a pool that also holds paths beginning / ending with the separator or holding an empty segment (`.defaults`, `labels.`, `a..b`: an empty-named key is a key), names that differ from their cleaned / trimmed form, leading / trailing white space, letter-case twins, supplementary-plane characters, U+FFFD, syntax look-alikes, digit strings beyond 64 bits, the empty text, `}} {{`; configured-but-empty values (non-nil pointer to \"\" / false / 0 / empty slice, empty non-nil slices and maps) are populated per field, alone and next to all other fields; value-or-reference values are populated in both kinds and in the odd forms too (an immediate value that also has Ref set, a reference that also has Val set, an empty reference); template text also goes into text fields that are NOT tagged (string, *string, []string elements, *[]string elements, *ValOrRef: the clone may hold them verbatim or rendered) and every templated value is cloned twice under different data with a deep snapshot of the original (slice elements included) compared before/after, and the FIRST clone compared with what it was before the second one was made; FAILURE THEN SUCCESS: per text field of every operation type (and at random) the field holds a template that CANNOT be rendered — it parses and fails while it is being executed, after it has produced output (field of a scalar, undefined associated template, sprig's fail, index of a missing key; short and longer than 64 bytes), or it does not parse — while the other template fields hold templates that render, and/or the clone is preceded, in the same context, by the clone of another operation whose template cannot be rendered: the unrenderable text is kept as it is, every other field holds exactly the rendered text, and a plain log operation cloned afterwards holds its rendered message; exec cases run data-only specs (set, patch, template, log, abort, define+call, loop, forEach) as original and clone on equal data (the clone first: the original must still be what it was after the clone ran) and as forEach bodies; vor cases take one value-or-reference — decoded scalar, decoded {ref: …}, composite literal with Ref AND Val, decoded reference with Val set; Ref / Val from {empty, path of a leaf, missing path, `{{ .x }}` with .x possibly empty} (small scope exhaustively, then random) — on its own ((*ValOrRef).CloneWith) and as every *ValOrRef field of every operation type found by reflection, bare / in OpSpec / in ActionSpec: the clone is compared field by field (the unexported kind flag included; reflect.DeepEqual with the original when template-free), resolved on data where the path named by Ref holds something else than Val, and executed (export: which files are written with what content, log lines; forEach over a query: log lines) against the original; feach cases run a forEach over 2-3 items whose body (log, set, template, patch, exec `true` with an argument list, in operations or in a steps child) uses `{{ .<variable> }}` and compare outcome, data and logs with a fresh copy of the body cloned+executed per item, and with a second run of the same forEach value. ROUND 6, SYNTAX LOOK-ALIKES AND SHAPES: trees held by an operation (any-values, set data, call / ext arguments; in clone, exec and nested action cases) also have KEYS that look like syntax of a neighbouring notation — dotted paths (`app.kubernetes.io/name`, `a..b`, `.lead`, `trail.`), index groups (`l[0]`, `m[1].k`), JSON pointers and their escapes (`/p`, `/a/b`, `~0`, `~1`), `k=v`, `*`, `%s`, `$x`, digits only, `-`, the empty key — and rare shapes (an empty collection followed by more content, lists directly in lists three levels deep with unequal lengths): a key is a key, the clone holds the same tree and executing it places the same tree; the value of .x is also text that LOOKS LIKE a template action which would render against the data (`{{ .other.y }}`, `v-{{ .other.y }}.yaml`, a comment action, a raw-string action, `{{ .x }}` itself), `%s`, `${x}`, `*`: the clone holds the text rendered ONCE — rendered text is text (a fixed table runs every operation type's template fields under each such value, bare and wrapped). ROUND 8, THE CONTEXT'S DATA IS MORE THAN x (Nest): in a third of the random clone cases and in a fixed table per operation type (its clone:\"template\" fields alone / next to all others, four template texts, bare and wrapped) the data of the cloning context also holds, at EVERY path-safe text of the expected clone (a path field, a file name that happens to be a path, a rendered `pre-V-post` / `V.name` / `name.V`), a container with an `x` and an `other.y` of its own: template-bearing fields are rendered against the context's data (its root), so the clone holds the same texts as without them. TREES (c15_tree.go): an action spec with 2-4 operations side by side in one OpSpec, in `steps` children and nested in forEach / loop / define bodies (two levels), whose text fields hold templates that READ the data (`{{ .x }}`, `{{ .other.y }}`, `{{ .cfg.name }}`), templates that also WRITE to the map they are rendered against (sprig set / unset on `.` or a nested map, the defaulting idiom) and literals, is cloned as ActionSpec / OpSpec / ChildActions in a real context; every operation of the tree, at every depth, is also cloned ON ITS OWN in a fresh context over equal data and the tree's clone must hold exactly that at the operation's place (what an operation's clone holds depends on the operation and the context's data, not on its neighbours or the order of the walk); original and context data are compared before / after; a fixed table has each writing template in one operation and a reading one in a sibling / child step / forEach body. Non-trivial: at least one field populated (tree: at least two operations). distinct = distinct canonical case JSON.",
 		Assumptions: []string{"text/template + sprig is an external library: the model renders only the micro-fragment `{{ .x }}`; template-free = no `{{` … `}}` pair in any string (possiblyTemplate is false)",
 			"helpers safeRenderStrPointer/safeRenderStrSlice/safeCopyIntSlice/safeCloneValOrRef are classified by name by the extractor; their behaviour is validated only by this harness",
 			"operations with OS effects (exec, templateFile, import, export, env, ext, html2dom) are cloned and compared but not executed — except exec of the program `true` (no output, no files) in feach cases and export in vor cases (into a scratch directory under .work, which is also the working directory while the operation runs)"}})
@@ -775,6 +840,7 @@ func c15Run(c *Ctx) {
 			cs.TplKind = r.Intn(len(c15TplTexts))
 		}
 		cs.Ptr = cs.Wrap != "" && r.Intn(3) == 0
+		cs.Nest = r.Intn(3) == 0
 		if withBad {
 			cs.Bad, cs.BadKind = bad, r.Intn(len(c15BadTemplates))
 			if len(bad) == 0 || r.Intn(3) == 0 {
@@ -821,6 +887,8 @@ func c15Run(c *Ctx) {
 		c.Do("feach", e)
 	}
 	c15RunLook(c, names, types)
+	c15RunNest(c, names, types) // the context's data holds containers where the operation's texts point (below)
+	c15RunTree(c)               // trees of several operations with reading / writing templates (c15_tree.go)
 }
 
 // c15RunLook (round 6): SYNTAX LOOK-ALIKES, smallest cases.  (a) the value of .x is itself text that looks like a
@@ -854,6 +922,31 @@ func c15RunLook(c *Ctx, names []string, types map[string]reflect.Type) {
 			for seed := int64(0); seed < 24; seed++ {
 				c.Do("clone", c15Clone{Op: n, Fields: []string{f}, Seed: seed, X: "V", Wrap: wraps[int(seed)%len(wraps)]})
 			}
+		}
+	}
+}
+
+// c15RunNest (round 8): per operation type, its clone:"template" fields (alone and next to all other fields) hold
+// `{{ .x }}` texts while the context's data holds, at every path those texts name once rendered, a container with
+// another `x` (c15Clone.Nest).
+func c15RunNest(c *Ctx, names []string, types map[string]reflect.Type) {
+	r := c.Rng
+	wraps := []string{"", "opspec", "action", "children"}
+	for _, n := range names {
+		t := types[n]
+		var all, tagged []string
+		for i := 0; i < t.NumField(); i++ {
+			all = append(all, t.Field(i).Name)
+			if t.Field(i).Tag.Get("clone") == "template" {
+				tagged = append(tagged, t.Field(i).Name)
+			}
+		}
+		if len(tagged) == 0 {
+			continue
+		}
+		for _, k := range []int{0, 1, 6, 7} {
+			c.Do("clone", c15Clone{Op: n, Fields: tagged, Seed: r.Int63n(1 << 30), Tpl: tagged, TplKind: k, X: "V", Nest: true})
+			c.Do("clone", c15Clone{Op: n, Fields: all, Seed: r.Int63n(1 << 30), Tpl: tagged, TplKind: k, X: pick(r, []string{"V", "a.b", "7"}), Nest: true, Wrap: pick(r, wraps)})
 		}
 	}
 }
@@ -1005,6 +1098,8 @@ func c15Eval(c *Ctx, kind string, raw []byte) {
 		c15EvalFE(c, p)
 	case "vor":
 		c15EvalVoR(c, raw)
+	case "tree":
+		c15EvalTree(c, raw) // c15_tree.go
 	}
 }
 
@@ -1223,6 +1318,12 @@ func c15EvalClone(c *Ctx, p c15Clone) {
 		data := dom.Builder().Container()
 		data.AddValue("x", dom.LeafNode(x))
 		data.AddValueAt("other.y", dom.LeafNode(1))
+		if p.Nest {
+			// (the texts of the EXPECTED clone: the rendered paths are the ones that matter)
+			if n := c15NestData(data, c15Build(p, opT, strings.ReplaceAll(tplText, "{{ .x }}", x)), x); n > 0 {
+				c.Dist("clone:context-data-holds-containers-where-the-texts-point")
+			}
+		}
 		var preMsg, probeMsg string
 		out, txt = guard(func() {
 			_ = c15WithCtx(data, nil, func(ctx pipeline.ActionContext) error {
